@@ -42,6 +42,7 @@ def check(run: Run, prog: Program, model: Model, tier: str) -> None:
         "hook names CustomSchema defines; the four entry functions pass their arguments through."
         " No function of the dispatch chain answers from instance or module-level state that the chain itself fills.")
     run.explanation += " TRANSPARENT: on every path through Schema.__accept__ -> visit -> hook, the visitor returns exactly the hook call's result and nothing raises after the hook returned."
+    run.explanation += " DISPATCH-STATE also covers CustomSchema's own @final hooks (state kept on the instance)."
     run.rule_text = ("one obligation per member-descent site (ONLY-ACCEPT), per link of the dispatch chain and per entry "
                      "function; non-trivial = established on interpreter paths through inlined helpers")
     unroll = 1
@@ -244,6 +245,17 @@ def _dispatch_chain(run: Run, prog: Program, model: Model) -> None:
                          witness="a freed custom schema's printed form / result is returned for a new custom schema at the same address or key")
         if not hits:
             run.holds("DISPATCH-STATE", f"{vis}.visit", model.visitors[vis].loc, "no state consulted before dispatching to the hook", nontrivial=False)
+    # ... nor may CustomSchema's own @final hooks keep anything on the instance between two calls: what they hand to the
+    # user hook and what they return is a function of the arguments of that call (indent, path, value, ...)
+    subc = _Run(run.prop, "sub")
+    hidden_state(subc, prog, custom, "DISPATCH-STATE")
+    hitsc = [o for o in subc.obs if o.status == "VIOLATED"]
+    for o in hitsc:
+        run.violated("DISPATCH-STATE", o.construct, o.site, o.detail + " - a custom member is answered from what an earlier call "
+                     "(at another depth / path) left on the instance",
+                     witness="the same custom instance printed at two nesting depths replays the text of the first depth")
+    if not hitsc:
+        run.holds("DISPATCH-STATE", "CustomSchema.__d42_*__", custom.loc, "no state kept on the instance", nontrivial=False)
     # ... nor may any function of the dispatch chain answer from module-level state that the chain itself fills
     import ast as _ast
     chain = []
@@ -355,6 +367,8 @@ VAL = "d42/validation/_validator.py"
 SUB = "d42/substitution/_substitutor.py"
 CT = "d42/custom_type/_custom_type.py"
 MUTANTS = [
+    {"name": "custom represent hook result cached on the instance regardless of indent (seeded C16-L)", "rule": "DISPATCH-STATE",
+     "edits": [(CT, "            return cast(str, represent_method(visitor, indent=indent, **kwargs))\n", "            try:\n                return cast(str, self.__cached)\n            except AttributeError:\n                self.__cached = represent_method(visitor, indent=indent, **kwargs)\n            return cast(str, self.__cached)\n")]},
     {"name": "custom validate hook gets `path or make_path()` again (fix 51c1bdc reverted)", "rule": "DISPATCH-CHAIN",
      "edits": [("d42/custom_type/_custom_type.py", "            root = visitor.make_path() if path is Nil else path\n", "            root = path or visitor.make_path()\n")]},
     {"name": "Substitutor.visit re-validates what a custom hook returned (seeded C16-J)", "rule": "TRANSPARENT",
